@@ -89,7 +89,29 @@ def run(prop, repo='/repo', log=print):
             restore = None
             if 'patch' in v and not os.path.isabs(v['patch']):
                 v = dict(v, patch=os.path.join(HERE, 'patches', v['patch']))
-            if 'patch' in v:
+            if 'patches' in v:
+                # several independent patches applied together (those that apply, in order)
+                applied = []
+                for pn in v['patches']:
+                    pp = os.path.join(HERE, 'patches', pn)
+                    if subprocess.run(['git', 'apply', '--check', pp], cwd=scratch, stdout=subprocess.DEVNULL, stderr=subprocess.DEVNULL).returncode == 0:
+                        subprocess.check_call(['git', 'apply', pp], cwd=scratch)
+                        applied.append(pp)
+                entry['applied'] = [os.path.basename(x) for x in applied]
+                if len(applied) < 2:
+                    for pp in reversed(applied):
+                        subprocess.check_call(['git', 'apply', '-R', pp], cwd=scratch)
+                    entry['status'] = 'stale'
+                    entry['detail'] = 'fewer than two of the patches apply together'
+                    res['stale'] += 1
+                    res['variants'].append(entry)
+                    log('  selftest stale       %s %s' % (prop, v['id']))
+                    continue
+
+                def restore(ps=applied):
+                    for pp in reversed(ps):
+                        subprocess.check_call(['git', 'apply', '-R', pp], cwd=scratch)
+            elif 'patch' in v:
                 r = subprocess.run(['git', 'apply', '--check', v['patch']], cwd=scratch,
                                    stdout=subprocess.PIPE, stderr=subprocess.STDOUT, text=True)
                 if r.returncode != 0:
